@@ -450,6 +450,37 @@ decreasing_by
 
 theorem envEB (fs : List FDef) : EnvEB fs := envEB_of_fields fs (fun g _ => fieldEB g)
 
+/-! ## a well-formed definition can be constructed -/
+
+theorem constructFields_of_fields : ∀ (fs : List FDef), (∀ f ∈ fs, wfField f = true → constructField f = true) →
+    wfFields fs = true → constructFields fs = true
+  | [], _, _ => rfl
+  | f :: fs, h, hw => by
+    simp only [wfFields, Bool.and_eq_true] at hw
+    simp only [constructFields, Bool.and_eq_true]
+    exact ⟨h f (List.mem_cons_self ..) hw.1,
+      constructFields_of_fields fs (fun g hg => h g (List.mem_cons_of_mem _ hg)) hw.2⟩
+
+theorem constructField_of_wf : ∀ (f : FDef), wfField f = true → constructField f = true
+  | .int .., _ => rfl
+  | .buf .., _ => rfl
+  | .spare .., _ => rfl
+  | .bits pres len little fs, hw => by
+    obtain ⟨l, offs, hd⟩ := wfField_bits_derive hw
+    simp [constructField, hd]
+  | .env name pres ld cl fs, hw => by
+    simp only [wfField, Bool.and_eq_true, decide_eq_true_eq] at hw
+    simp only [constructField]
+    exact constructFields_of_fields fs (fun g _ => constructField_of_wf g) hw.1.2
+  | .seq name pres ld item, hw => by
+    simp only [wfField, Bool.and_eq_true, decide_eq_true_eq] at hw
+    simp only [constructField]
+    exact constructFields_of_fields item (fun g _ => constructField_of_wf g) hw.1.1
+termination_by f => sizeOf f
+decreasing_by
+  all_goals simp_wf
+  all_goals (have := List.sizeOf_lt_of_mem ‹_›; omega)
+
 /-! ## envelope level: only DecodeError / EncodeError are catchable outcomes -/
 
 theorem envFrom_error_cases : ∀ (fs : List FDef) (pre : Vals) (data : List Nat) (off : Nat) (e : Err),
